@@ -915,7 +915,7 @@ func TestC13(t *testing.T) {
 	runCore(t, coreCfg{prop: "C13", profile: profC13, quickSeeds: 40, thoroughSeeds: 1600, nops: 100})
 }
 func TestC14(t *testing.T) {
-	runCore(t, coreCfg{prop: "C14", profile: profC14, quickSeeds: 40, thoroughSeeds: 1600, nops: 100})
+	runCore(t, coreCfg{extra: waitingEmptyPullRestartsExpiry, prop: "C14", profile: profC14, quickSeeds: 40, thoroughSeeds: 1600, nops: 100})
 }
 
 // recreatedStream: a dead row that no job has pruned yet is invisible too — a StreamingPull on a
